@@ -8,6 +8,7 @@ import (
 
 	"verif/internal/driver"
 	"verif/internal/gen"
+	"verif/internal/vfile"
 )
 
 // Viol is a violation as reported to the orchestrator.
@@ -136,3 +137,10 @@ func featList(f map[string]bool) []string {
 }
 
 func hasPrefix(s, p string) bool { return len(s) >= len(p) && s[:len(p)] == p }
+
+// newScratchFile returns an instrumented file that accepts writes from any call (CopyTo destinations in sweeps).
+func newScratchFile() *vfile.File {
+	f := vfile.New("scratch")
+	f.SetTag("CopyTo(dst)")
+	return f
+}
